@@ -232,6 +232,16 @@ class RowTracker:
             self.assign(tgt, st.value, st.lineno)
 
     def assign(self, tgt, value, lineno):
+        if isinstance(tgt, (ast.Tuple, ast.List)) and isinstance(value, (ast.Tuple, ast.List)) and len(tgt.elts) == len(value.elts) \
+                and all(isinstance(t, ast.Name) for t in tgt.elts) \
+                and not any((isinstance(v, ast.Call) and norm(v.func) in self.ALLOC) or (isinstance(v, ast.Name) and v.id in self.objs) for v in value.elts):
+            # simultaneous rebinding of locals to pure expressions (`a, b = a[p], b[p]`): every right-hand side is read
+            # before any name is bound; env values are always in terms of the original names, so they are bound as they are
+            vals = [self.subst(v) for v in value.elts]
+            for t, v in zip(tgt.elts, vals):
+                self.env[t.id] = v
+                self.objs.pop(t.id, None)
+            return
         if isinstance(tgt, ast.Name):
             if isinstance(value, ast.Call) and norm(value.func) in self.ALLOC:
                 self.objs[tgt.id] = self._alloc(value)
